@@ -141,3 +141,6 @@ pub const W4: &str = "id: w4\nsteps:\n  - id: s1\n    acts:\n      - uses: acts.
 pub const W3B: &str = "id: w3b\nsteps:\n  - id: s1\n    catches:\n      - on: e1\n        steps:\n          - id: cs1\n            acts:\n              - uses: acts.core.irq\n                key: c1\n      - on: e2\n        steps:\n          - id: cs2\n            acts:\n              - uses: acts.core.irq\n                key: c2\n    acts:\n      - uses: acts.core.irq\n        key: a1\n        catches:\n          - on: e3\n            steps:\n              - id: ca3\n                acts:\n                  - uses: acts.core.irq\n                    key: d3\n          - on: e4\n  - id: s2\n";
 /// real sibling acts: a parallel block with two interrupts, then a further act in the step
 pub const W6: &str = "id: w6\nsteps:\n  - id: s1\n    acts:\n      - uses: acts.core.block\n        key: blk\n        params:\n          mode: parallel\n          acts:\n            - uses: acts.core.irq\n              key: x\n            - uses: acts.core.irq\n              key: y\n      - uses: acts.core.irq\n        key: z\n  - id: s2\n";
+
+/// a sequential step followed by a step with a parked (`needs`) branch and an `else` branch
+pub const W7: &str = "id: w7\nsteps:\n  - id: s1\n    acts:\n      - uses: acts.core.irq\n        key: a1\n  - id: s2\n    branches:\n      - id: b1\n        if: \"true\"\n        steps:\n          - id: s21\n            acts:\n              - uses: acts.core.irq\n                key: a2\n      - id: b2\n        needs: [b1]\n        steps:\n          - id: s22\n            acts:\n              - uses: acts.core.irq\n                key: a3\n      - id: b3\n        else: true\n        steps:\n          - id: s23\n  - id: s3\n";
